@@ -25,6 +25,7 @@ edn_arena_t* edn_arena_create(void) {
     arena->first = block;
     arena->next_block_size = ARENA_MEDIUM_SIZE; /* Grow to medium on next allocation */
     arena->total_allocated = ARENA_INITIAL_SIZE;
+    arena->failed_requests = 0;
 
     return arena;
 }
@@ -87,6 +88,7 @@ void* edn_arena_alloc(edn_arena_t* arena, size_t size) {
     /* Requests that cannot be rounded up or combined with the block header
      * without wrapping around cannot be met */
     if (size > SIZE_MAX - 7 - sizeof(arena_block_t)) {
+        arena->failed_requests++;
         return NULL;
     }
 
@@ -100,5 +102,9 @@ void* edn_arena_alloc(edn_arena_t* arena, size_t size) {
         return ptr;
     }
 
-    return edn_arena_alloc_slow(arena, size);
+    void* ptr = edn_arena_alloc_slow(arena, size);
+    if (ptr == NULL) {
+        arena->failed_requests++;
+    }
+    return ptr;
 }
